@@ -18,6 +18,7 @@ import (
 
 	"verif/harness/internal/gen"
 	"verif/harness/internal/mon"
+	"verif/harness/internal/ref"
 )
 
 func main() { mon.Main("C18", run) }
@@ -375,7 +376,7 @@ func doWrite(c *mon.Ctx, k, tail, failW, ad int, r *gen.Rand) {
 		s.failErr = tempErr{} // a temporary failure is a failure all the same: reported, nothing retried
 	} else if r.Chance(4) {
 		// the packet writer's error is its own business; it may be a value that means something else to readers
-		s.failErr = []error{io.EOF, io.ErrUnexpectedEOF, io.ErrShortWrite, gots.ErrInvalidPacketLength}[r.Intn(4)]
+		s.failErr = []error{io.EOF, io.ErrUnexpectedEOF, io.ErrShortWrite, gots.ErrInvalidPacketLength, ref.LibraryErrors[r.Intn(len(ref.LibraryErrors))], ref.LibraryErrors[r.Intn(len(ref.LibraryErrors))]}[r.Intn(6)]
 	}
 	w, aname := adapter(ad, s)
 	n, err := w.Write(data)
@@ -391,6 +392,18 @@ func doWrite(c *mon.Ctx, k, tail, failW, ad int, r *gen.Rand) {
 			c.Fail("Write:bad-length-not-rejected", fmt.Sprintf("a slice of %d bytes (not a multiple of 188) was not rejected up front: %s", len(data), wt.Got), wt)
 		}
 		c.Count("write.rejected_length")
+		if r.Bool() {
+			// the caller tries the very same slice once more: it is rejected just the same
+			n2, err2 := w.Write(data)
+			c.Eval(1)
+			c.Count("write.rejected_length_offered_again")
+			if err2 != gots.ErrInvalidPacketLength || len(s.got) != 0 {
+				wt.Got = fmt.Sprintf("n=%d err=%v deliveries=%d", n2, err2, len(s.got))
+				wt.Want = "ErrInvalidPacketLength before any delivery"
+				c.Fail("Write:bad-length-not-rejected-the-second-time", fmt.Sprintf("a slice of %d bytes (not a multiple of 188), rejected once, was not rejected when written again: %s", len(data), wt.Got), wt)
+				return
+			}
+		}
 		// the adapter is as good as new after a rejected call
 		followUp(c, w, s, r, wt)
 		return
@@ -543,6 +556,9 @@ func doReadFrom(c *mon.Ctx, k, tail, failW, failR, rk, ad int, r *gen.Rand) {
 	s := &sink{failAt: failW, failCnt: []int{0, 0, 100, 188}[r.Intn(4)]}
 	if r.Chance(3) {
 		s.failErr = tempErr{}
+	} else if r.Chance(4) {
+		// (as for Write: the packet writer's error may be a value that means something else elsewhere)
+		s.failErr = ref.LibraryErrors[r.Intn(len(ref.LibraryErrors))]
 	}
 	rerr := readerErrs[0]
 	if failR >= 0 && r.Chance(2) {
